@@ -471,16 +471,19 @@ def _run_history(spec, mk, prior_kind, ck, t0, acc=None):
     return {'spec': spec, 'req': req, 'ops': ops, 'states': states, 'outs': outs, 'fails': fails, 'stats': stats}
 
 
-def _worker(spec):
+def _worker(spec, limit=None):
     os.environ.setdefault('OMP_NUM_THREADS', '1')
     try:
-        return run_history(spec)
+        if limit is None:
+            return run_history(spec)
+        with common.time_limit(limit):      # CPU seconds of this worker; a history that does not end is a finding
+            return run_history(spec)
+    except common.InfraTimeout as e:
+        return {'spec': spec, 'infra': str(e)}
     except Exception as e:   # a crash of the real sampler on a valid configuration is reported by every Core property
         import traceback
         return {'spec': spec, 'crash': '%s: %s' % (type(e).__name__, str(e)[:200]), 'trace': traceback.format_exc()[-1500:]}
 
-
-# ------------------------------------------------------------------------------------------ history sets
 
 def histories(tier, seed):
     H = []
@@ -602,20 +605,22 @@ def run_all(tier, seed):
 
 def _run_all(tier, seed):
     H = histories(tier, seed)
-    limit = 420 if tier == 'quick' else 1500       # seconds per history; a run that does not return is a finding
+    limit = 420 if tier == 'quick' else 1500       # CPU seconds per history; a run that does not return is a finding
     pool = mp.get_context('fork').Pool(min(16, os.cpu_count() or 4))
     try:
-        pend = [pool.apply_async(_worker, (h,)) for h in H]
-        t_end = _time.time() + limit + 60
+        pend = [pool.apply_async(_worker, (h, limit)) for h in H]
+        t_end = _time.time() + 10 * limit + 600       # wall-clock backstop for the whole batch: infrastructure, not a finding
         res = []
         for h, a in zip(H, pend):
             try:
                 res.append(a.get(timeout=max(1.0, t_end - _time.time())))
             except mp.TimeoutError:
-                res.append({'spec': h, 'crash': 'Timeout: the history did not finish within %d s (run() does not return)' % limit,
-                            'trace': ''})
+                res.append({'spec': h, 'infra': 'no result within the wall-clock backstop of the batch'})
     finally:
         pool.terminate()
+    infra = [r for r in res if 'infra' in r]
+    if infra:
+        raise RuntimeError('infrastructure: %d histories did not finish for lack of machine time (%s)' % (len(infra), infra[0]['infra']))
     ok = [r for r in res if 'crash' not in r and r.get('req')]
     replies = common.run_driver_parallel([r['req'] for r in ok]) if ok else []
     for r, rep in zip(ok, replies):
@@ -650,6 +655,8 @@ def crash_properties(trace):
     frames = re.findall(r'File "[^"]*/nautilus/(?:[\w/]+)\.py", line \d+, in (\w+)', trace)
     for fn in reversed(frames):
         if fn in CRASH_MAP:
+            if 'TimeoutError' in trace:       # a history that does not end: also reported by the call-count properties
+                return tuple(sorted(set(CRASH_MAP[fn]) | {'C03', 'C10'}))
             return CRASH_MAP[fn]
     return ('C03', 'C10')
 
